@@ -2077,7 +2077,9 @@ void NifFile::PrepareData() {
 
 			auto dynamicShape = dynamic_cast<BSDynamicTriShape*>(bsTriShape);
 			if (dynamicShape) {
-				for (uint16_t i = 0; i < dynamicShape->GetNumVertices(); i++) {
+				// The partition can hold more vertices than the shape has dynamic data for (mismatched or damaged file)
+				const size_t dynamicCount = std::min<size_t>(dynamicShape->GetNumVertices(), dynamicShape->dynamicData.size());
+				for (size_t i = 0; i < dynamicCount; i++) {
 					dynamicShape->vertData[i].vert.x = dynamicShape->dynamicData[i].x;
 					dynamicShape->vertData[i].vert.y = dynamicShape->dynamicData[i].y;
 					dynamicShape->vertData[i].vert.z = dynamicShape->dynamicData[i].z;
